@@ -29,6 +29,7 @@ class World:
         for a in AGENTS:
             self.w.boot(a)
         self.cblog = []
+        self.pub_delivered, self.pub_ops = [], []
         self.silent, self.refused = [], []
         self.drain()
         self.w.exc.clear()
@@ -44,6 +45,8 @@ class World:
         if not q:
             return False
         msg = q.pop(0)
+        if dst == "orchestrator" and msg.msg.type == "publish_computation":
+            self.pub_delivered.append((msg.msg.computation, msg.msg.agent))
         before = self.views()
         n0 = len(self.cblog)
         self.w.agents[dst]._comm.receive_msg(src, dst, msg)
@@ -78,6 +81,16 @@ class World:
                 if not any(e[0] == a and e[1] == kind and e[2] == c for e in events):
                     self.silent.append({"a": a, "c": c, "kind": kind})
 
+    def late_publications(self):
+        """computations whose publications by different agents reached the directory in another order than they were made"""
+        out = []
+        for c in COMPS:
+            made = [a for cc, a in self.pub_ops if cc == c]
+            got = [a for cc, a in self.pub_delivered if cc == c and cc in COMPS]
+            if got != made[:len(got)]:
+                out.append(c)
+        return out
+
     def observe(self, at):
         dd = self.w.directory
         return {"at": at,
@@ -104,6 +117,7 @@ class World:
         n0 = len(self.cblog)
         try:
             if k == "reg":
+                self.pub_ops.append((c, a))
                 d.register_computation(c, a, ag.address)
             elif k == "unreg":
                 d.unregister_computation(c, a)
@@ -150,7 +164,8 @@ def execute(hid, ops, sched_seed):
     obs.append(w.observe(len(done)))
     exc = [{"agent": e[0], "what": "%s handling %s from %s" % (e[4].split(":")[0], e[3], e[1])} for e in w.w.exc]
     return {"id": hid, "agents": AGENTS, "comps": COMPS, "ops": done, "obs": obs, "exc": exc,
-            "silent": [x for x in w.silent], "refused": w.refused, "script": ops, "sched_seed": sched_seed}, w
+            "silent": [x for x in w.silent], "refused": w.refused, "script": ops, "sched_seed": sched_seed,
+            "late_pub": w.late_publications()}, w
 
 
 def run(tier):
@@ -169,15 +184,9 @@ def run(tier):
         for rep in range(1 if len(case["ops"]) <= 3 else 2):
             h, _ = execute(len(hist), case["ops"], r.randrange(10 ** 6))
             hist.append(h)
-    f = scratch() / "c20.ndjson"
-    with open(f, "w") as fh:
-        for h in hist:
-            fh.write(json.dumps({k: x for k, x in h.items() if k not in ("refused", "script", "sched_seed")}) + "\n")
-    jres = tlc.run("Judge_C20", JUDGE_CFG, env={"TRACE_FILE": str(f)}, workers=8, heap="6g", timeout=1500)
+    from ..judge import judge
+    verdicts, jres = judge("Judge_C20", hist, strip=("refused", "script", "sched_seed", "late_pub"))
     v.add_tlc(jres, "convergence judged on %d executed histories (Judge_C20 / Discovery.tla)" % len(hist))
-    verdicts = {x[0]["id"]: x[0]["bad"] for x in jres.tagged("VERDICT")}
-    if len(verdicts) != len(hist):
-        raise MachineryError("judge returned %d verdicts for %d histories" % (len(verdicts), len(hist)))
     refused = collections.Counter()
     for h in hist:
         v.cov["evaluations"] += 1
@@ -195,6 +204,12 @@ def run(tier):
             kinds = [o["k"] for o in h["ops"]]
             key = {"clause": clause, "after_unreg": "unreg" in kinds, "after_runsub": "runsub" in kinds, "after_unsub": "unsub" in kinds,
                    "with_replica": "rep" in kinds}
+            if clause == "computation_view_differs_from_directory":
+                view, dirv, host = b[3], b[4], b[5]
+                key["diagnosis"] = ("stale_entry_for_unhosted_computation" if dirv == "" and host == "" and view != "" else
+                                "directory_lost_a_hosted_computation" if dirv == "" and host != "" else
+                                "view_misses_directory_entry" if view == "" else "view_and_directory_name_different_hosts")
+                key["publications_overtook_each_other"] = b[2] in h["late_pub"]
             v.violation(key, "%s for %s (operations %s)" % (clause, b[1:], " ".join("%s(%s,%s)" % (o["k"], o["a"], o["c"]) for o in h["ops"])),
                         {"script": h["script"], "sched_seed": h["sched_seed"], "obs": h["obs"][-1], "exc": h["exc"], "bad": verdicts[h["id"]]})
         if not verdicts[h["id"]] and len(h["ops"]) >= 5:
